@@ -237,7 +237,7 @@ func (p *oracle) decide(q *request) *expectation {
 		copy(h.BM[:], joined)
 	}
 	a := ptttype.BrdAttr(q.attr)
-	if ptttype.DEFAULT_AUTOCPLOG {
+	if q.auto { // the site configuration DEFAULT_AUTOCPLOG in force for this request
 		a |= ptttype.BRD_CPLOG
 	}
 	if q.isGroup {
@@ -326,8 +326,8 @@ func describe(q *request) string {
 	if !q.bmsNil {
 		bms = fmt.Sprintf("%q", cstrOf(q.bms))
 	}
-	return fmt.Sprintf("NewBoard(user %q level %#x uid %d, parent %d, name %q, class %q, title %q, BMs %s, attr %#x, level %#x, chess %d, group %v)",
-		cstrOf(q.user), q.ulevel, q.uid, q.cls, q.name, q.bclass, q.btitle, bms, q.attr, q.level, q.chess, q.isGroup)
+	return fmt.Sprintf("NewBoard(user %q level %#x uid %d, parent %d, name %q, class %q, title %q, BMs %s, attr %#x, level %#x, chess %d, group %v, DEFAULT_AUTOCPLOG=%v)",
+		cstrOf(q.user), q.ulevel, q.uid, q.cls, q.name, q.bclass, q.btitle, bms, q.attr, q.level, q.chess, q.isGroup, q.auto)
 }
 
 // sortedOK: idx[:n] is a permutation of 0..n-1 in non-decreasing key order.
@@ -616,7 +616,7 @@ func (p *oracle) judgeBbs(i int, line string, a *bbsArgs, res string, slot int, 
 		nm = nm[:13]
 	}
 	q := &request{user: p.users[uid-1], ulevel: lvl, uid: int32(uid), cls: a.cls, name: nm, bclass: a.bclass, btitle: a.btitle,
-		bms: joined, attr: a.attr, level: a.level, chess: a.chess, isGroup: a.isGroup}
+		bms: joined, attr: a.attr, level: a.level, chess: a.chess, isGroup: a.isGroup, auto: a.auto}
 	if (res == "PANIC" || res == "TIMEOUT") && len(bytes.Join(a.bms, []byte{'/'})) > 38 {
 		run.Fail(i, "crash:newbm", fmt.Sprintf("%s: %s (%s)", what, res, hx.LastPanic))
 		p.judged, p.why = false, "crashed"
